@@ -694,7 +694,10 @@ fn actor_history(hist: &[AOp]) -> Vec<(&'static str, Value, String)> {
                         Err(_) => break,
                     }
                 }
-                if block_on(crate::sut::handle_dump(&h, ns)).map(|d| d.contains(&e)).unwrap_or(false) {
+                // (no look at the document here: a query commits the open transaction and would
+                // hide exactly what this operation is about; the session's own count tells
+                // whether the entry entered)
+                if st_h.num_recv >= 1 {
                     model.put(&e);
                 }
             }
